@@ -91,7 +91,7 @@ Lemma demo_names : issued (env_run demo_hist) = [name0; name1; [58;49;46;50]].
 Proof. vm_compute. reflexivity. Qed.
 
 Lemma demo_forwarded :
-  In (TEmit (OClient 1) (SRouted 1)
+  In (TEmit (OClient 1) (SRouted 1 (ATo 0))
         (mkSMsg true 4 0 7
            [mkSField 7 (TBasic 115) (VStr 115 name1);
             mkSField 1 (TBasic 111) (VStr 111 [47;120]); mkSField 2 (TBasic 115) (VStr 115 [116;46;73]);
@@ -149,3 +149,40 @@ Lemma fail_bounced :
                      | _ => [] end)
            (env_run fail_hist) = [(1, Some (VNum 117 7), Some (VStr 115 name1))].
 Proof. vm_compute. reflexivity. Qed.
+
+(* ---------------- nobody can get at somebody else's unique name ------------------------------------ *)
+Definition release_msg (serial : N) (name : bytes) : smsg :=
+  mkSMsg true 1 0 serial
+    [mkSField 1 (TBasic 111) (VStr 111 dbus_path); mkSField 2 (TBasic 115) (VStr 115 drv_name);
+     mkSField 3 (TBasic 115) (VStr 115 mem_release); mkSField 6 (TBasic 115) (VStr 115 drv_name);
+     mkSField 8 (TBasic 103) (VStr 103 [115])] [115] [VStr 115 name].
+
+Definition to_name_msg (serial : N) (name : bytes) : smsg :=
+  mkSMsg true 1 0 serial
+    [mkSField 1 (TBasic 111) (VStr 111 [47;120]); mkSField 3 (TBasic 115) (VStr 115 [77]);
+     mkSField 6 (TBasic 115) (VStr 115 name)] [] [].
+
+(* client 1 asks for client 0's name (live), its own name, a never minted one, tries to release 0's name;
+   0 leaves; 1 asks again for the departed name and writes to it: nobody is addressed *)
+Definition squat_hist : list event :=
+  [EConnect 0; ESend 0 (hello_msg 1); EConnect 1; ESend 1 (hello_msg 1);
+   ESend 1 (request_msg 2 name0); ESend 1 (request_msg 3 name1); ESend 1 (request_msg 4 [58;57;46;57]);
+   ESend 1 (release_msg 5 name0); ESend 1 (to_name_msg 6 name0); EDisconnect 0;
+   ESend 1 (request_msg 7 name0); ESend 1 (to_name_msg 8 name0)].
+
+Lemma squat_hist_ok : Forall event_ok squat_hist.
+Proof. repeat constructor. Qed.
+
+Definition addressed_of (tr : list item) : list (N * addressee) :=
+  flat_map (fun i => match i with TEmit (OClient _) (SRouted _ a) m => [(s_serial m, a)] | _ => [] end) tr.
+
+Definition refusals_of (tr : list item) : list (option val) :=
+  flat_map (fun i => match i with
+                     | TEmit ODriver (STo 1) m => if s_type m =? 3 then [get_field (s_fields m) 5] else []
+                     | _ => [] end) tr.
+
+Lemma squat_refused :
+  refusals_of (env_run squat_hist) = map (fun k => Some (VNum 117 k)) [2; 3; 4; 5; 7] /\
+  addressed_of (env_run squat_hist) = [(6, ATo 0); (8, ANobody)] /\
+  departed (env_run squat_hist) = [name0].
+Proof. vm_compute. repeat split; reflexivity. Qed.
